@@ -9,9 +9,9 @@
    map (filter + ID collision check per resource); [obj_cluster_scoped t obj] = Gvk.IsClusterScoped over
    scope table t; [obj_namespace] = RNode.GetNamespace; [ns_chain] = one resource through the directives
    of its layer chain, [outermost] the last non-empty one. *)
+From KV Require Import Res.Pipeline Res.NameRefProofs Res.NamespaceSubjects.
 From KV Require Import Res.Labels Res.LabelsProofs Res.Namespace Res.NamespaceProofs Res.NamespaceTree Res.NamespaceGen.
 From KV Require Import Gen.NsScope Gen.FieldSpecs.
-From KV Require Import Res.Pipeline Res.NameRefProofs Res.NamespaceSubjects.
 
 (* ---- obligations on the generated tables (vm_compute) ---- *)
 
